@@ -341,6 +341,9 @@ def main(argv=None):
         rs, info = engine_f.run_lexpos(prop, S, outdir)
         results += rs
         infos += info
+        rs, info = engine_f.run_cyclechecks(prop, S, outdir)
+        results += rs
+        infos += info
     if "S" in engines:
         import engine_s
 
